@@ -25,7 +25,7 @@ ASSUMPTIONS = [
     "monotonicity law evaluated on trees without negated rows (a negated row is meant to be dropped under cant_delete)",
     "juniper 'inactive:' rows are not generated",
 ]
-FLOORS = {"quick": {"filters_compared": 3000, "strict_raises_agreed": 300, "strict_passes_agreed": 100, "monotone_checked": 1000, "idempotent_checked": 3000, "explicit_negated_rule_cases": 400, "production_merges_checked": 1500, "diff_texts_filtered": 600, "ignore_rule_filters": 300, "slash_regex_filters": 300, "rows_under_an_inherited_global_rule_two_or_more_levels_down": 300, "acl_lines_with_tab_before_params": 2000, "acl_comment_lines_inside_blocks": 500, "inactive_row_filters": 600},
+FLOORS = {"quick": {"filters_compared": 3000, "strict_raises_agreed": 300, "strict_passes_agreed": 100, "monotone_checked": 1000, "idempotent_checked": 3000, "explicit_negated_rule_cases": 400, "production_merges_checked": 1500, "diff_texts_filtered": 600, "ignore_rule_filters": 300, "slash_regex_filters": 300, "rows_under_an_inherited_global_rule_two_or_more_levels_down": 300, "acl_lines_with_tab_before_params": 2000, "acl_comment_lines_inside_blocks": 500, "inactive_row_filters": 600, "filters_of_partly_annotated_trees": 1500},
           "thorough": {"filters_compared": 100000, "strict_raises_agreed": 10000, "strict_passes_agreed": 3000, "monotone_checked": 30000, "idempotent_checked": 100000, "explicit_negated_rule_cases": 12000, "production_merges_checked": 50000, "diff_texts_filtered": 20000, "ignore_rule_filters": 10000, "slash_regex_filters": 5000}}
 VENDORS = ["huawei", "cisco", "pc", "routeros", "juniper", "arista"]
 KNOWN_WINNER = "C06/children-rules-lost-when-global-or-negated-match-outranks-local"
@@ -140,11 +140,11 @@ def add_deep_global(rng, level, tree, prefix):
 
 
 def commented(text, rng):
-    """`# ...` comment lines inside the ACL text, at the indentation of the rule they precede"""
+    """`# ...` comment lines (and bare `!` separator lines, as in a Cisco listing) inside the ACL text, at the indentation of the rule they precede"""
     out = []
     for ln in text.split("\n"):
         if ln.strip() and rng.random() < 0.15:
-            out.append(" " * (len(ln) - len(ln.lstrip(" "))) + rng.choice(["# note", "#", "# interface * %cant_delete=1"]))
+            out.append(" " * (len(ln) - len(ln.lstrip(" "))) + rng.choice(["# note", "#", "# interface * %cant_delete=1", "!", "!"]))
         out.append(ln)
     return "\n".join(out)
 
@@ -251,6 +251,28 @@ def check_case(seed, acc, negpair=False, deep=False):
             acc.violation("C06/repeated-filter-differs", "filtering the same tree by the same ACL a second time in one process gives another result",
                           dict(w, which=name, first=got, second=got_again))
             continue
+        if deep:
+            # `annet gen --annotate`: some rows carry "\t# where they were yielded" (rows completed from the implicit defaults do not); the filter
+            # looks at the row itself and returns the same lines
+            from annet.annlib.lib import add_annotation, strip_annotation
+            from annet.annlib.rbparser.acl import compile_acl_text
+            from annet.annlib.patching import apply_acl
+            arng = random.Random(seed ^ 0xA770)
+
+            def annotate(tr):
+                return type(tr)((add_annotation(r, "gen.py:%d" % arng.randint(1, 99)) if arng.random() < 0.5 else r, annotate(c)) for r, c in tr.items())
+
+            def strip(tr):
+                return [[strip_annotation(r) if "\t# " in r else r, strip(c)] for r, c in tr]
+            try:
+                got_a = strip(plain(apply_acl(annotate(t), compile_acl_text(text, vname), fatal_acl=False, with_annotations=True)))
+            except Exception as e:
+                got_a = "EXC %s" % type(e).__name__
+            acc.count("filters_of_partly_annotated_trees")
+            if got_a != got:
+                acc.violation("C06/annotated-tree-filtered-differently", "with annotations on some rows (and the option that says so) the filter keeps other lines than on the bare tree",
+                              dict(w, which=name, bare=got, annotated=got_a))
+                continue
         unc = []
         exp = ref_filter(level, pt, prefix, "property", unc)
         allrows = sum(1 for _ in paths(t))
